@@ -263,9 +263,11 @@ def corpus(seed, n, classes=None, nstmts=12):
 # every operation kind in every stack-depth regime: one program per (group of balanced snippets, base depth)
 SWEEP_KERNEL = "export.k0\n  push.5 mem_store.9 padw caller dropw\nend\nexport.k1.2\n  push.1 loc_store.0 loc_load.1 drop\nend\n"
 SWEEP_PROCS = ("proc.leaf\n  push.3 drop\nend\nproc.withloc.2\n  push.7 loc_store.1 loc_load.1 drop padw loc_storew.0 loc_loadw.0 dropw\nend\n"
-               "proc.nest\n  call.leaf exec.withloc syscall.k1\nend\nproc.deepuse\n  push.1 push.2 push.3 movup.2 drop drop drop\nend\n")
+               "proc.nest\n  call.leaf exec.withloc syscall.k1\nend\nproc.deepuse\n  push.1 push.2 push.3 movup.2 drop drop drop\nend\n"
+               # nested transfers of control made while the intermediate context holds more than 16 elements
+               "proc.deepnest\n  push.1 push.2 call.leaf syscall.k0 procref.leaf dyncall dropw sdepth drop drop drop\nend\n")
 SWEEP = {
-    "control": ["call.leaf", "syscall.k0", "procref.leaf dyncall dropw", "procref.leaf dynexec dropw", "exec.withloc", "call.withloc", "call.nest",
+    "control": ["call.deepnest", "call.leaf", "syscall.k0", "procref.leaf dyncall dropw", "procref.leaf dynexec dropw", "exec.withloc", "call.withloc", "call.nest",
                 "syscall.k1", "call.deepuse", "procref.nest dyncall dropw",
                 "push.1 if.true call.leaf else push.2 drop end", "push.0 if.true push.2 drop else syscall.k0 end", "push.0 if.true push.2 drop end",
                 "push.1 while.true push.0 end", "push.0 while.true push.0 end", "push.1 push.1 push.0 movdn.2 while.true call.leaf end", "repeat.3 push.1 drop end",
